@@ -56,6 +56,22 @@ def rawtokens(path):
     return [(t.get("str"), int(t.get("linenr")), int(t.get("column"))) for t in rt.findall("tok")] if rt is not None else None
 
 
+def dump_text(b):
+    """how the dump renders a token text (lib/errorlogger.cpp ErrorLogger::toxml, then read back by an XML parser):
+    \\t \\n \\r and printable ASCII survive, NUL becomes the two characters \\0, every other control byte and every byte
+    > 0x7f becomes the letter x. The rendering is lossy by design of the dump layer (a C14 matter); this stream compares
+    the lexer's tokens under that rendering."""
+    out = []
+    for ch in b:
+        if ch == 0:
+            out.append("\\0")
+        elif ch in (9, 10, 13) or 32 <= ch <= 0x7f:
+            out.append(chr(ch))
+        else:
+            out.append("x")
+    return "".join(out)
+
+
 def toks_of(fields):
     return [tuple(fields[i:i + 4]) for i in range(0, len(fields) - 3, 4)]
 
@@ -151,8 +167,8 @@ def check(run, replay):
 
     # ---- X1b: the same through `cppcheck --dump` <rawtokens> (comments are part of rawtokens)
     nb = 40 if quick else 400
-    # (the dump's XML writer rewrites control characters inside comment tokens: keep them out of this stream)
-    sample = [c for c in cases if c[0].strip() and b"\x80" not in c[0] and b"\x01" not in c[0]][:nb]
+    # (token texts are compared under the dump's own rendering of control bytes, see dump_text)
+    sample = [c for c in cases if c[0].strip() and b"\x80" not in c[0]][:nb]
     _, mo, _ = vlib.run_lines([model], [vlib.enc_case(["lex"] + c) for c in sample])
     for k, (c, ml) in enumerate(zip(sample, mo)):
         m = vlib.dec_line(ml)
@@ -167,7 +183,7 @@ def check(run, replay):
         if rt is None:
             run.count("rawtokens (--dump)", None, bucket="no-dump")
             continue
-        exp = [(s.decode("latin-1"), int(l), int(co)) for (s, l, co, cm) in toks_of(m)]
+        exp = [(dump_text(s), int(l), int(co)) for (s, l, co, cm) in toks_of(m)]
         run.count("rawtokens (--dump)", None, nontrivial=c[0] if interesting.search(c[0]) else None, bucket="compared")
         if exp != rt:
             run.stream("rawtokens (--dump)")["disagreements"] += 1
